@@ -431,6 +431,17 @@ def strategy(max_tasks=6):
         else:
             prog, outc = G.gen_direct(D, F, max_tasks)
         mode = D.choice(['rerun', 'rerun', 'rerun', 'skip'])
+        if D.bool(0.3):
+            # "with retry policy": the failing plain tasks use up a retry
+            # before they end in ERROR; the rerun starts a fresh attempt
+            for p_ in [prog] + list(prog.get('subs') or []):
+                for nm in p_['order']:
+                    t_ = p_['tasks'][nm]
+                    if (outc.get(nm) or [['ok']])[0][0] == 'err' and \
+                            not t_.get('with-items') and \
+                            not t_.get('workflow') and \
+                            t_.get('join') is None:
+                        t_['retry'] = {'count': D.int(1, 2), 'delay': 0}
         if mode == 'skip' and D.bool(0.6):
             # the statement's other half of skip: publish-on-skip is
             # published and on-skip is followed instead of on-success
